@@ -1,4 +1,4 @@
-import TracklibVerif.Model.Grid
+import TracklibVerif.Model.GridCall
 import TracklibVerif.Drv.Util
 /-! Driver handler for C08 (grid spatial index). One command, one scenario per line:
 
@@ -14,6 +14,8 @@ import TracklibVerif.Drv.Util
      info | grid | getcell;x;y | inter;8 scalars | cross;ax;ay;bx;by (fractional cell indices)
      gcross;x1;y1;x2;y2 (ground coordinates: __cellsCrossSegment(__getCell(a), __getCell(b)), `none`, or `err:<kind>`)
      cell;i;j | pt;x;y | seg;x1;y1;x2;y2 | trk;x1;y1;x2;y2;…
+     ncall;<obj>;<j>;<unit>  the call neighborhood(obj, j, unit) with its defaults: obj = c:i | p:x,y | s:x1,y1,x2,y2 | t:x,y,x,y,…;
+                             j, unit = `_` (left out) or an integer
      ncell;i;j;u | npt;x;y;u | nseg;x1;y1;x2;y2;u | ntrk;u;x1;y1;… | units;d
      nd;x;y;d   (neighborhood(coord, unit=groundDistanceToUnits(d)) → `u=<result>`)
 Scalars are rationals `p/q` (mode rat) or IEEE bit patterns (mode flt).
@@ -82,6 +84,20 @@ def query (num? : String → Option α) (shw : α → String) (fl : α → Int) 
     | "npt", [x, y, u] => do
       let x ← num? x; let y ← num? y; let u ← u.toInt?
       pure (showRes (showOpt showNats) (neighborhoodPoint fl ix (x, y) u))
+    | "ncall", [obj, j, u] => do
+      let j ← if j == "_" then some none else j.toInt?.map some
+      let u ← if u == "_" then some none else u.toInt?.map some
+      let o : NObj α ← (match obj.splitOn ":" with
+        | ["c", i] => i.toInt?.map NObj.cell
+        | [k, rest] => do
+          let ns ← (splitTok rest ',').mapM num?
+          match k, ns with
+          | "p", [x, y] => some (NObj.point (x, y))
+          | "s", [x1, y1, x2, y2] => some (NObj.seg (x1, y1) (x2, y2))
+          | "t", _ => (pairs? ns).map NObj.track
+          | _, _ => none
+        | _ => none)
+      pure (showRes (showOpt showNats) (neighborhoodCall fl ix o j u))
     | "nseg", [x1, y1, x2, y2, u] => do
       let x1 ← num? x1; let y1 ← num? y1; let x2 ← num? x2; let y2 ← num? y2; let u ← u.toInt?
       pure (showRes (showOpt showNats) (neighborhoodSeg fl ix (x1, y1) (x2, y2) u))
